@@ -20,10 +20,10 @@ PROFILES = {
     # property -> (world constraints, weight overrides, options)
     "C01": dict(world={}, w={"primitive": 5, "enable": 0.2, "disable": 0.1}, reinvert=0.6, steps=(8, 60), nopix_rare=True),
     "C02": dict(world={}, w={"undo": 6, "redo": 4, "enable": 0.1, "disable": 0.05}, steps=(10, 80), bursty=True, nopix_rare=True),
-    "C03": dict(world={"p_seg": 0.3}, w={"add_edge": 7, "add_node": 4, "paint": 2, "undo": 4, "redo": 2.5, "enable": 0, "disable": 0}, steps=(10, 60), wild_edges=True, bursty=True),
-    "C04": dict(world={"p_seg": 0.3}, w={"enable": 0.05, "disable": 0.02, "restart": 0.2}, steps=(10, 60)),
-    "C05": dict(world={"p_seg": 0.3}, w={"add_edge": 5, "delete_edge": 4, "delete_node": 4, "enable": 0.05, "disable": 0.02, "restart": 0.2}, steps=(10, 60), division_bias=True),
-    "C06": dict(world={"p_seg": 0.3}, w={"issue_ids": 1, "delete_node": 3, "enable": 0.05, "disable": 0.02, "restart": 0.2}, steps=(10, 60), explicit_tracks=True),
+    "C03": dict(world={"p_seg": 0.3}, w={"add_edge": 7, "add_node": 4, "paint": 2, "undo": 4, "redo": 2.5, "enable": 0, "disable": 0}, steps=(10, 60), wild_edges=True, bursty=True, nopix_rare=True),
+    "C04": dict(world={"p_seg": 0.3}, w={"enable": 0.05, "disable": 0.02, "restart": 0.2}, steps=(10, 60), nopix_rare=True),
+    "C05": dict(world={"p_seg": 0.3}, w={"add_edge": 5, "delete_edge": 4, "delete_node": 4, "enable": 0.05, "disable": 0.02, "restart": 0.2}, steps=(10, 60), division_bias=True, nopix_rare=True),
+    "C06": dict(world={"p_seg": 0.3}, w={"issue_ids": 1, "delete_node": 3, "enable": 0.05, "disable": 0.02, "restart": 0.2}, steps=(10, 60), explicit_tracks=True, nopix_rare=True),
     "C07": dict(world={"seg": True, "feats": "any"}, w={"paint": 8, "enable": 0.1, "disable": 0.05}, steps=(10, 50), nopix=True),
     "C08": dict(world={"seg": True, "feats": "any"}, w={"paint": 8, "enable": 0.6, "disable": 0.3}, steps=(8, 40), motif=0.4, motifs=["toggle", "toggle", "fold"]),
     "C09": dict(world={"seg": True, "feats": "iou"}, w={"paint": 7, "add_edge": 5, "enable": 0.6, "disable": 0.4}, steps=(8, 40), iou_toggle=True, motif=0.4, motifs=["toggle", "toggle", "fold"]),
